@@ -66,17 +66,22 @@ fn main() {
     if let Some(path) = &args.replay {
         if let Ok(bytes) = std::fs::read(path) {
             if serde_json::from_slice::<serde_json::Value>(&bytes).is_err() {
-                let target = match id.as_str() {
-                    "C16" => "decode",
-                    "C15" => "roundtrip",
-                    "C02" | "C03" | "C05" | "C14" => "sched_client",
-                    "C04" | "C06" | "C08" | "C12" => "sched_server",
+                // the file name written by fuzz/run.sh names the target (<ID>-fuzz-<target>-<seed>.bin)
+                let fname = path.file_name().map(|f| f.to_string_lossy().to_string()).unwrap_or_default();
+                let named = ["decode", "roundtrip", "sched_client", "sched_server"].into_iter().find(|t| fname.contains(t));
+                let target = match (named, id.as_str()) {
+                    (Some(t), _) => t,
+                    (None, "C16") => "decode",
+                    (None, "C15") => "roundtrip",
+                    (None, "C01" | "C02" | "C03" | "C05") => "sched_client",
+                    (None, "C04" | "C06" | "C08" | "C12") => "sched_server",
                     _ => {
-                        println!("INCONCLUSIVE: {id} has no fuzz target and the replay file is not JSON");
+                        println!("INCONCLUSIVE: the replay file is not JSON and its name does not say which fuzz target of {id} it belongs to");
                         std::process::exit(2);
                     }
                 };
                 std::env::set_var("VERIF_FUZZ_ONLY", &id);
+                std::env::set_var("VERIF_FUZZ_REPLAY", "1");
                 tarpc_verif::sim::exec::install_panic_hook();
                 let r = std::thread::Builder::new()
                     .stack_size(64 << 20)
